@@ -104,6 +104,20 @@ def compare(a, b):
     return None
 
 
+def _norm(log):
+    """Once a program yields AFTER it has been closed ("generator ignored GeneratorExit") the abandoned generators are
+    closed by the garbage collector at a time of its choosing: the comparison stops at that yield."""
+    out, closed = [], False
+    for x in log:
+        if x[0] == "closed_at":
+            closed = True
+        elif x[0] == "yield" and closed:
+            out.append(("...", "yield-after-close"))
+            break
+        out.append(tuple(x))
+    return out
+
+
 def run_case(case):
     out = []
     variants = _variants()
@@ -117,7 +131,7 @@ def run_case(case):
         for script in scripts_for(ast):
             p = Program(ast)
             tr, oc, msgs = drive(p.gen, script, [p.ctx], _tag)
-            base = (tr, oc, norm_log(p.log))
+            base = (tr, oc, _norm(p.log))
             counters["drives"] += 1
             counters["scripts_with_close"] += int("close" in script)
             counters["scripts_with_throw"] += int(any(a not in ("send", "close") for a in script))
@@ -125,7 +139,7 @@ def run_case(case):
                 q = Program(ast)
                 w = wrap(q.gen)
                 tr2, oc2, msgs2 = drive(w, script, [q.ctx], _tag)
-                got = (tr2, oc2, norm_log(q.log))
+                got = (tr2, oc2, _norm(q.log))
                 counters["drives"] += 1
                 d = compare(base, got)
                 if d is None and any(m is not n for m, n in zip(msgs2, q.ctx["msgs"])):
